@@ -563,41 +563,104 @@ Definition trace_verdict (c : tcase) : nat :=
 Definition trace_case_ok (c : tcase) : bool := Nat.eqb (trace_verdict c) 0.
 
 (* ------------------------------------------------------------------ *)
-(* the skeletons (conditions stripped) this model was written against  *)
+(* the skeletons this model was written against (repaired code); ties are up to
+   conditions (skel_same_shape).  SCall "verifYield" marks a named yield point: the
+   model's steps are the operations between two consecutive ones. *)
 Open Scope string_scope.
 
 Definition expected_watch : skel :=
   [SDefer [SClose "s.watchDone"];
    SDefer [SCancel "cancel"];
-   SFor [SIf "" [SBreak] [];
-         SCall "getOrCreateHandler";
-         SAtomic "Swap" "hnd.pendingMsg";
-         SIf "" [SCall "releaseHandler"; SContinue] [];
+   SFor [SIf "err != nil" [SBreak] [];
+         SCall "verifYield";                          (* watch:next *)
+         SCall "getOrCreateHandler";                  (* WGet *)
+         SAtomic "Swap" "hnd.pendingMsg";             (* WSwap *)
+         SCall "verifYield";                          (* watch:swapped *)
+         SIf "oldMsg != nil" [SCall "releaseHandler"; SContinue] [];   (* WRelease *)
          SWgAdd "s.asyncWG";
-         SGo [SDefer [SCall "releaseHandler"];
-              SLock "hnd.asyncMutex";
-              SDeferUnlock "hnd.asyncMutex";
-              SIf "" [SSelect false [[SSend "s.syncSem"; SDefer [SRecv "s.syncSem"]];
-                                     [SRecv "ctx.Done()"]]] [];
+         SGo [SDefer [SCall "releaseHandler"];        (* PRelH, runs last *)
+              SCall "verifYield";                     (* async:start *)
+              SLock "hnd.asyncMutex";                 (* GStart *)
+              SDeferUnlock "hnd.asyncMutex";          (* PUnlockA *)
+              SCall "verifYield";                     (* async:locked *)
+              SIf "s.syncSem != nil"
+                  [SSelect false [[SSend "s.syncSem"; SDefer [SRecv "s.syncSem"]];   (* GAcq / PRelSem *)
+                                  [SRecv "ctx.Done()"]]] [];
+              SCall "verifYield";                     (* async:sem *)
               SCall "asyncSyncAdChain";
               SWgDone "s.asyncWG"]]].
 
 Definition expected_asyncSyncAdChain : skel :=
-  [SIf "" [SReturn] [];
-   SAtomic "Swap" "h.pendingMsg";
-   SLock "h.syncMutex";
-   SDeferUnlock "h.syncMutex";
-   SCall "GetLatestSync";
-   SIf "" [SIf "" [SReturn] []] [SIf "" [SCall "recursionLimit"] []];
+  [SIf "ctx.Err() != nil" [SReturn] [];
+   SAtomic "Swap" "h.pendingMsg";                     (* GTake *)
+   SCall "verifYield";                                (* async:taken *)
+   SLock "h.syncMutex";                               (* PLockS *)
+   SDeferUnlock "h.syncMutex";                        (* PUnlockS *)
+   SCall "GetLatestSync";                             (* PRead *)
+   SCall "verifYield";                                (* async:latest-read *)
+   SIf "latestSyncLink != nil" [SIf "stopAtCid == nextCid" [SReturn] []]   (* PCmp *)
+       [SIf "h.subscriber.firstSyncDepth != 0" [SCall "recursionLimit"] []];
    SCall "makeSyncer";
-   SIf "" [SReturn] [];
+   SIf "err != nil" [SReturn] [];
    SCall "ExploreRecursiveWithStopNode";
-   SCall "handle";
-   SIf "" [SSend "h.subscriber.inEvents"; SReturn] [];
-   SCall "sendSyncFinishedEvent"].
+   SCall "handle";                                    (* PHandle, PReport, PUnlocking *)
+   SCall "verifYield";                                (* async:handled *)
+   SIf "err != nil" [SSend "h.subscriber.inEvents"; SReturn] [];   (* PHandled, error event *)
+   SCall "sendSyncFinishedEvent"].                    (* PHandled, PSend *)
+
+Definition expected_handle : skel :=
+  [SCall "verifYield";                                (* handle:locked -- the caller holds h.syncMutex *)
+   SLock "h.subscriber.scopedBlockHookMutex";
+   SUnlock "h.subscriber.scopedBlockHookMutex";
+   SDefer [SLock "h.subscriber.scopedBlockHookMutex";
+           SUnlock "h.subscriber.scopedBlockHookMutex";
+           SCall "verifYield"];                       (* handle:unlocking *)
+   SIf "segdl > 0 && bh != nil" [SCall "getRecursionLimit"] [];
+   SIf "!syncBySegment" [SIf "err != nil" [SReturn] []; SReturn] [];
+   SFor [SCall "withRecursionLimit";
+         SIf "!ok" [SReturn] [];
+         SCall "reset";
+         SIf "err != nil" [SReturn] [];
+         SIf "segSync.err != nil" [SReturn] [];
+         SIf "" [SBreak] [];
+         SIf "" [SBreak] [];
+         SSwitch [[SContinue]; [SIf "" [SBreak] []]; [SReturn]]];
+   SReturn].
+
+Definition expected_SyncAdChain : skel :=
+  [SLock "s.expSyncMutex";
+   SIf "s.expSyncClosed" [SUnlock "s.expSyncMutex"; SReturn] [];
+   SWgAdd "s.expSyncWG";
+   SUnlock "s.expSyncMutex";
+   SDefer [SWgDone "s.expSyncWG"];
+   SCall "getSyncOpts";
+   SCall "removeIDFromAddrs";
+   SIf "err != nil" [SReturn] [];
+   SCall "getOrCreateHandler";                        (* EGet *)
+   SDefer [SCall "releaseHandler"];                   (* PRelH *)
+   SCall "makeSyncer";
+   SIf "err != nil" [SReturn] [];
+   SLock "hnd.syncMutex";                             (* PLockS *)
+   SDeferUnlock "hnd.syncMutex";                      (* PUnlockS *)
+   SIf "opts.depthLimit != 0" [SCall "recursionLimit"] [];
+   SIf "opts.resync" [] [SIf "opts.stopAdCid != cid.Undef" [] [SCall "GetLatestSync"]];   (* PRead *)
+   SCall "verifYield";                                (* sync:stop-read *)
+   SIf "nextCid == cid.Undef" [SIf "err != nil" [SReturn] []; SIf "nextCid == cid.Undef" [SReturn] []] [];   (* PCmp: GetHead *)
+   SIf "stopLnk != nil" [SIf "stopAtCid == nextCid" [SReturn] []]
+       [SIf "" [SCall "recursionLimit"] []];
+   SIf "ctx.Err() != nil" [SReturn] [];
+   SCall "ExploreRecursiveWithStopNode";
+   SCall "handle";                                    (* PHandle, PReport, PUnlocking *)
+   SIf "err != nil" [SReturn] [];
+   SCall "verifYield";                                (* sync:handled *)
+   SIf "updateLatest" [SCall "sendSyncFinishedEvent"] [];   (* PHandled, PSend *)
+   SReturn].
 
 Definition expected_sendSyncFinishedEvent : skel :=
-  [SCall "setLatestSync"; SSend "h.subscriber.inEvents"].
+  [SCall "setLatestSync";                             (* PHandled *)
+   SCall "verifYield";                                (* event:latest-set *)
+   SSend "h.subscriber.inEvents";                     (* PSend *)
+   SCall "verifYield"].                               (* event:sent *)
 
 Definition expected_getOrCreateHandler : skel :=
   [SLock "s.handlersMutex"; SDeferUnlock "s.handlersMutex"; SReturn].
@@ -606,9 +669,68 @@ Definition expected_releaseHandler : skel :=
   [SLock "s.handlersMutex"; SUnlock "s.handlersMutex"].
 
 Definition expected_RemoveHandler : skel :=
-  [SLock "s.handlersMutex"; SDeferUnlock "s.handlersMutex"; SIf "" [SReturn] []; SReturn].
+  [SLock "s.handlersMutex"; SDeferUnlock "s.handlersMutex"; SIf "!ok || hnd.users != 0" [SReturn] []; SReturn].
 
 Definition expected_idleHandlerCleaner : skel :=
   [SFor [SSelect false [[SRecv "t.C"; SLock "s.handlersMutex"; SUnlock "s.handlersMutex"];
                         [SRecv "s.closing"; SReturn]]]].
+
+Definition expected : list (string * skel) :=
+  [("Subscriber.watch", expected_watch);
+   ("handler.asyncSyncAdChain", expected_asyncSyncAdChain);
+   ("handler.handle", expected_handle);
+   ("Subscriber.SyncAdChain", expected_SyncAdChain);
+   ("handler.sendSyncFinishedEvent", expected_sendSyncFinishedEvent);
+   ("Subscriber.getOrCreateHandler", expected_getOrCreateHandler);
+   ("Subscriber.releaseHandler", expected_releaseHandler);
+   ("Subscriber.RemoveHandler", expected_RemoveHandler);
+   ("Subscriber.idleHandlerCleaner", expected_idleHandlerCleaner)].
+
+Definition tie_ok (gen : list (string * skel)) : bool :=
+  forallb (fun e => skel_same_shape (lookup_or_nil (fst e) gen) (snd e)) expected.
+
+(* bodies of the goroutines a function starts (the path analyses of SyncSkel do not
+   descend into `go`) *)
+Fixpoint spawned_op (fuel : nat) (o : sop) {struct fuel} : list skel :=
+  match fuel with
+  | O => []
+  | S f =>
+    let many := flat_map (spawned_op f) in
+    match o with
+    | SGo b => b :: many b
+    | SDefer b | SFor b | SFunc b | SOnce _ b => many b
+    | SIf _ a b => (many a ++ many b)%list
+    | SSelect _ cs | SSwitch cs => flat_map many cs
+    | _ => []
+    end
+  end.
+Definition spawned (b : skel) : list skel := flat_map (spawned_op 20) b.
+
+(* callee summaries: which callees may block, which take a mutex themselves *)
+Definition c08_env (name : string) : option callee :=
+  if String.eqb name "getOrCreateHandler" then Some {| c_blocks := false; c_locks := ["s.handlersMutex"] |}
+  else if String.eqb name "releaseHandler" then Some {| c_blocks := false; c_locks := ["s.handlersMutex"] |}
+  else if String.eqb name "handle" then Some {| c_blocks := true; c_locks := [] |}
+  else if String.eqb name "asyncSyncAdChain" then Some {| c_blocks := true; c_locks := ["h.syncMutex"] |}
+  else if String.eqb name "sendSyncFinishedEvent" then Some {| c_blocks := true; c_locks := [] |}
+  else if String.eqb name "makeSyncer" then Some {| c_blocks := true; c_locks := [] |}
+  else None.
+
+(* every return path of the functions of interest (and of the goroutine watch starts)
+   releases every mutex it took, and never takes one it holds *)
+Definition of_interest : list string :=
+  ["Subscriber.watch"; "handler.asyncSyncAdChain"; "handler.handle"; "Subscriber.SyncAdChain";
+   "handler.sendSyncFinishedEvent"; "Subscriber.getOrCreateHandler"; "Subscriber.releaseHandler";
+   "Subscriber.RemoveHandler"; "Subscriber.idleHandlerCleaner"; "Subscriber.syncEntries"].
+Definition balance_ok (gen : list (string * skel)) : bool :=
+  forallb (fun n => let b := lookup_or_nil n gen in
+                    balanced 300 b && forallb (balanced 300) (spawned b)) of_interest.
+
+(* nothing blocks while s.handlersMutex is held (so getOrCreateHandler / releaseHandler /
+   RemoveHandler / the cleaner are atomic steps of the model) *)
+Definition handlers_mutex_fns : list string :=
+  ["Subscriber.getOrCreateHandler"; "Subscriber.releaseHandler"; "Subscriber.RemoveHandler";
+   "Subscriber.idleHandlerCleaner"].
+Definition handlers_mutex_ok (gen : list (string * skel)) : bool :=
+  forallb (fun n => balanced_nonblocking c08_env 300 (lookup_or_nil n gen)) handlers_mutex_fns.
 Close Scope string_scope.
